@@ -130,7 +130,10 @@ class RealLinkWorld(DilMidWorld):
         if n == "L":
             c.p.send_record(C.KCM())
         c.alive = True
-        s.m.connector_connection_made(c.p)
+        try:
+            s.m.connector_connection_made(c.p)
+        except Exception as e:          # logged by the eventual queue in the real Connector.accept() turn
+            s.errors.append(e)
         self.settle()
 
     def connect(self):
